@@ -122,7 +122,63 @@ def s12_generated(ctx):
         r = StreamResult("S12-generated", note="gen_c12 not built (a generated module is broken): skipped")
         r.skipped["generated_driver_not_built"] = 1
         return r
-    return s12_intersect(ctx, ctx.gen, "S12-generated")
+    res = s12_intersect(ctx, ctx.gen, "S12-generated")
+    # the regenerated node loop of determine_intersects vs the real function with a scripted determine_intersect (touch tests are real geometry)
+    import_fractopo()
+    import geopandas as gpd
+    import numpy as np
+    from shapely.geometry import LineString, Point
+
+    import fractopo.analysis.relationships as relm
+    from harness.common import parse_resp, rng_for
+
+    rng = rng_for(ctx.seed, "S12loop")
+    set1 = gpd.GeoSeries([LineString([(0, 0), (30, 0)])])
+    set2 = gpd.GeoSeries([LineString([(0, 5), (30, 5)]), LineString([(3, -2), (3, 7)])])
+    spots = {(True, False): lambda i: Point(10.0 + i, 0.0), (False, True): lambda i: Point(10.0 + i, 5.0), (True, True): lambda i: Point(3.0, 0.0),
+             (False, False): lambda i: Point(100.0 + i, 100.0)}
+    cases, reqs = [], []
+    for _ in range(budget(ctx.tier, 200, 3000)):
+        nodes = []
+        for i in range(rng.randint(1, 6)):
+            t = rng.choice([(True, False), (False, True), (True, True), (True, True)]) if rng.random() < 0.93 else (False, False)
+            nodes.append((t, rng.choice(["X", "Y"]), rng.choice(["ab", "ba", "-"])))
+        cases.append(nodes)
+        reqs.append("gintloop names=a,b nodes=" + ";".join(f"{int(t[0])}:{int(t[1])}:{c}:{r}" for t, c, r in nodes))
+    resps = ctx.gen.parallel(reqs)
+    orig = relm.determine_intersect
+    try:
+        for nodes, req, resp in zip(cases, reqs, resps):
+            res.evaluations += 1
+            pts = [spots[t](i) for i, (t, _, _) in enumerate(nodes)]
+            script = {p.wkt: r for p, (_, _, r) in zip(pts, nodes)}
+            # two nodes at the same spot (3 0) share a script entry: give them the same scripted answer
+            for i, (t, c, r) in enumerate(nodes):
+                if t == (True, True):
+                    script[pts[i].wkt] = nodes[[j for j, (t2, _, _) in enumerate(nodes) if t2 == (True, True)][0]][2]
+
+            def scripted(node, node_class, l1, l2, first_set, second_set, first_setpointtree, buffer_value, _s=script):
+                r_ = _s[node.wkt]
+                if r_ == "-":
+                    raise ValueError("scripted")
+                return {"node": node, "nodeclass": node_class, "sets": (first_set, second_set) if r_ == "ab" else (second_set, first_set), "error": False}
+
+            relm.determine_intersect = scripted
+            eff = [(t, c, script[pts[i].wkt]) for i, (t, c, r) in enumerate(nodes)]
+            try:
+                df = relm.determine_intersects((set1, set2), ("a", "b"), gpd.GeoSeries(pts), np.array([c for _, c, _ in nodes]), 0.001)
+                want = "rows=" + ";".join(f"{i}:{row['nodeclass']}:{row['sets'][0]},{row['sets'][1]}:{int(bool(row['error']))}" for i, (_, row) in enumerate(df.iterrows()))
+            except ValueError:
+                want = "err=ValueError"
+            req2 = "gintloop names=a,b nodes=" + ";".join(f"{int(t[0])}:{int(t[1])}:{c}:{r}" for t, c, r in eff)
+            got = ctx.gen.batch([req2])[0].strip() if eff != nodes else resp.strip()
+            res.nontrivial += int("err=" in want or ":1" in want)
+            if got != want:
+                res.disagreements.append(Disagreement("S12-generated", {"stream": "S12-generated", "request": req2}, got, want, None,
+                                                      "regenerated node loop of determine_intersects (Lean) and the Python function disagree"))
+    finally:
+        relm.determine_intersect = orig
+    return res
 
 
 STREAMS = [s12_intersect, s12_relations, s12_generated]
